@@ -2299,6 +2299,11 @@ def make_ext_modules(I):
 
     mth["sqrt"] = bi("math.sqrt", m_sqrt)
 
+    def m_exp(I, st, a, k):
+        yield from ops.exp(I, st, a[0])
+
+    mth["exp"] = bi("math.exp", m_exp)
+
     def m_ceil(I, st, a, k):
         v = as_arith(a[0])
         if is_z3(v):
